@@ -20,6 +20,10 @@ sites), i.e. one mutex critical section / one select decision each:
                    `dead(conn)` and retry; otherwise `release(conn)` (`k?` as above) and return.
 * `ready c`, `die c` (`Run` returned → `DC.dead`), `cancel i` — environment.
 * `bg c rel k?`  — the background releaser of a connection whose creator gave up (`releaseWhenReady`).
+* `closeDC`      — `DC.Close`: `closed` is set and the DC context cancelled; afterwards `Invoke` refuses
+                   new calls, the creation and waiter selects may leave through their `c.ctx.Done()` case
+                   (`cwake i dc`, `wwake i dc`), the releaser may end without releasing, and every
+                   connection's `Run` returns (`die c`), so a live connection may be left without holder.
 
 `DC.dead` is idempotent per connection (`deleted.Swap`); it is one critical section: `total--`, remove
 from `free`, `dead.Signal()`, `stuck.Reset()` (modelled by the generation counter `gen`).
@@ -86,12 +90,13 @@ structure State where
   inbox : List (Nat × Nat)   -- (key, connection) sitting in a waiter's one-slot channel
   nextKey : Nat
   gen : Nat                  -- number of `stuck.Reset()` calls so far
+  closed : Bool              -- `DC.Close` ran: `c.closed` is set and `c.ctx` is cancelled
   callers : List Caller
   deriving DecidableEq, Repr
 
-inductive Br | ready | dead | ctx
+inductive Br | ready | dead | ctx | dc
   deriving DecidableEq, Repr
-inductive Wb | ch | stuck | ctx
+inductive Wb | ch | stuck | ctx | dc
   deriving DecidableEq, Repr
 inductive Fin | ok | err | retry
   deriving DecidableEq, Repr
@@ -103,10 +108,11 @@ inductive Action
   | finish (i : Nat) (r : Fin) (k : Option Nat)
   | ready (c : Nat) | die (c : Nat) | cancel (i : Nat)
   | bg (c : Nat) (rel : Bool) (k : Option Nat)
+  | closeDC
   deriving DecidableEq, Repr
 
 def init (max ncallers : Nat) : State :=
-  { max := max, total := 0, conns := [], free := [], reqs := [], inbox := [], nextKey := 0, gen := 0,
+  { max := max, total := 0, conns := [], free := [], reqs := [], inbox := [], nextKey := 0, gen := 0, closed := false,
     callers := List.replicate ncallers { pc := .idle, cancelled := false } }
 
 /-- The connection's `Dead()` flag (an unknown id counts as dead: it can never be handed out). -/
@@ -155,7 +161,7 @@ def handOut (cfg : Cfg) (s : State) (i : Nat) (x : Caller) (c : Nat) : State :=
 def step (cfg : Cfg) (s : State) : Action → Option State
   | .start i =>
     match s.callers[i]? with
-    | some x => if x.pc = .idle then some (setPc s i x .start) else none
+    | some x => if x.pc = .idle then some (setPc s i x (if s.closed then .done else .start)) else none
     | none => none
   | .enter i =>
     match s.callers[i]? with
@@ -201,6 +207,7 @@ def step (cfg : Cfg) (s : State) : Action → Option State
             if x.cancelled then
               some (setPc { s with conns := s.conns.set c { cn with orphan := cfg.createCancelReleases } } i x .done)
             else none
+          | .dc => if s.closed then some (setPc s i x .done) else none
         | none => none
       | _ => none
     | none => none
@@ -216,6 +223,7 @@ def step (cfg : Cfg) (s : State) : Action → Option State
           | none => none
         | .stuck => if g < s.gen then some (setPc s i x (.giveup k .stuck)) else none
         | .ctx => if x.cancelled then some (setPc s i x (.giveup k .ctx)) else none
+        | .dc => if s.closed then some (setPc s i x (.giveup k .ctx)) else none
       | _ => none
     | none => none
   | .giveup i k? =>
@@ -275,9 +283,11 @@ def step (cfg : Cfg) (s : State) : Action → Option State
             else if k? = none then some { s1 with free := c :: s1.free } else none
           else none
         else
-          if cn.dead ∧ k? = none then some s1 else none
+          if (cn.dead ∨ s.closed) ∧ k? = none then some s1 else none
       else none
     | none => none
+
+  | .closeDC => if s.closed then none else some { s with closed := true }
 
 def run (cfg : Cfg) (s : State) : List Action → Option State
   | [] => some s
@@ -324,7 +334,7 @@ def holdsB (s : State) : Bool :=
   s.total == liveCount s + nReserved s &&
   (s.max == 0 || s.total ≤ s.max) &&
   (List.range s.conns.length).all (fun c =>
-    holders s c ≤ 1 && (isDead s c || holders s c == 1)) &&
+    holders s c ≤ 1 && (isDead s c || s.closed || holders s c == 1)) &&
   s.inbox.all (fun e => hasReader s e.1 && e.2 < s.conns.length) &&
   s.free.all (fun c => c < s.conns.length)
 
